@@ -253,8 +253,13 @@ func execCase(c Case) (res vt.Result) {
 		e.servers = append(e.servers, e.specs[k].Name())
 	}
 	nodeOpts := drive.ClusterOpts{MaxShardPointCount: c.MaxShardPointCount, ShardTimeout: 2, RpcTimeout: 5, RpcRetries: 1}
+	// every node lists the servers in an order of its own (itself first), as separately written
+	// configurations do: routing must not depend on it
+	serversOf := func(k int) []string {
+		return append(append([]string{}, e.servers[k:]...), e.servers[:k]...)
+	}
 	for k := 0; k < c.Nodes; k++ {
-		n, err := drive.NewClusterNode(filepath.Join(dir, fmt.Sprintf("node%d", k)), e.specs[k], e.servers, nodeOpts, c.Nodes > 1)
+		n, err := drive.NewClusterNode(filepath.Join(dir, fmt.Sprintf("node%d", k)), e.specs[k], serversOf(k), nodeOpts, c.Nodes > 1)
 		if err != nil {
 			return vt.Result{Err: fmt.Errorf("node %d: %v", k, err)}
 		}
@@ -284,7 +289,7 @@ func execCase(c Case) (res vt.Result) {
 			if err := drive.StopClusterNode(e.nodes[st.Via], e.specs[st.Via]); err != nil {
 				return fail("closing the node: %v", err)
 			}
-			n, err := drive.NewClusterNode(filepath.Join(dir, fmt.Sprintf("node%d", st.Via)), e.specs[st.Via], e.servers, nodeOpts, true)
+			n, err := drive.NewClusterNode(filepath.Join(dir, fmt.Sprintf("node%d", st.Via)), e.specs[st.Via], serversOf(st.Via), nodeOpts, true)
 			if err != nil {
 				return fail("restarting the node: %v", err)
 			}
